@@ -74,6 +74,25 @@ pub fn c13_cases(rng: &mut Rng, tier: &str) -> (Vec<Case>, bool) {
         }
     }
     let _ = total;
+    // long runs of blanks (around 255 / 256 / 65535 bytes) INSIDE every multi-character token: between the letters of each
+    // keyword, the two characters of an operator, the digits of a numeral, the letters of a name
+    let words = ["PRINT", "GOTO", "GOSUB", "RETURN", "INPUT", "THEN", "ELSE", "NEXT", "STEP", "RESTORE", "READ", "DATA", "REM", "DEF", "DIM", "LET", "FOR", "TO", "IF", "END", "STOP", "AND", "OR", "NOT", "<=", ">=", "<>", "123", "1.5", "AB1", "X$"];
+    for wd in words {
+        for gap in [254usize, 255, 256, 257, 300, 65536] {
+            if gap > 1000 && (tier != "thorough" || wd.len() > 3) {
+                continue;
+            }
+            let chars: Vec<char> = wd.chars().collect();
+            for cut in 1..chars.len() {
+                let a: String = chars[..cut].iter().collect();
+                let b: String = chars[cut..].iter().collect();
+                for tail in [" 1", " X THEN 5", ""] {
+                    let s = format!("{}{}{}{}", a, " ".repeat(gap), b, tail);
+                    cases.push(Case { ops: vec![format!("tok {} 0", hexs(&s))], checks: vec!["ranges-exact 0".to_string()], tag: "long-blank-run-inside-token".into(), nontrivial: true, show: format!("{:?} + {} blanks + {:?}{}", a, gap, b, tail) });
+                }
+            }
+        }
+    }
     let n = if tier == "thorough" { 120_000 } else { 6_000 };
     for _ in 0..n {
         let (text, tag) = any_line(rng);
